@@ -308,7 +308,7 @@ Print Assumptions C18_check_ok_sound.
    and add/remove the id; Test(i) = 1 iff i is in the set; Next(i) = the least member greater than i, or -1
    when there is none).
    op 2, PreOrder / PostOrder / Reverse / Euler, for every recorded root (at least one): a root outside
-   the graph has status 2 (a call panicked; nothing else is compared); a root r < n has status 0 and ONE
+   the graph has status 2 (a call panicked) and all its seven lists are empty; a root r < n has status 0 and ONE
    event sequence evs satisfying the depth-first specification from the empty visited set such that
    PreOrder = its Enter projection, PostOrder = its Exit projection, Reverse(PostOrder) - both the
    returned slice and the argument slice afterwards - = the reversed Exit projection, Euler's callback
@@ -326,7 +326,8 @@ Theorem C18_check_meaning_traversals : forall rest,
      exists g obs, rest = enc_graph g ++ Z.of_nat (length obs) :: flat_map enc_trav obs ++ 1 :: enc_graph g /\
        g_wf g /\ obs <> [] /\
        Forall (fun o =>
-         ((t_root o < 0 \/ Z.of_nat (length g) <= t_root o) -> t_status o = 2) /\
+         ((t_root o < 0 \/ Z.of_nat (length g) <= t_root o) ->
+            t_status o = 2 /\ t_pre o = [] /\ t_post o = [] /\ t_rev o = [] /\ t_rva o = [] /\ t_eul o = [] /\ t_ent o = [] /\ t_ext o = []) /\
          (0 <= t_root o < Z.of_nat (length g) ->
             t_status o = 0 /\
             exists evs V', dfs_node (g_out g) [] (Z.to_N (t_root o)) evs V' /\
@@ -340,6 +341,7 @@ Theorem C18_check_meaning_traversals : forall rest,
        g_wf g /\
        scc_spec g compsN /\
        hascof = (if flags =? 0 then 0 else 1) /\
+       (flags = 0 -> cof = []) /\
        (flags <> 0 -> length cof = length g /\
           forall c v, In v (comp_at compsN c) -> nth (N.to_nat v) cof (-1) = Z.of_nat c) /\
        length outsN = length compsN /\
@@ -354,8 +356,8 @@ Print Assumptions C18_check_meaning_traversals.
    targets in first-occurrence order, each once, and each observed weight equals (Qeq) the sum of the weights
    of the merged parallel edges - the multiplicity for a plain graph (weighted = 0); weights are the decoded
    float64 bit patterns (wadj_decodes).
-   ops 7, 8.  In general the observation is the model's value (status 2 exactly when the model panics,
-   else status 0 and the rows NodeMap / Out / EdgeMap are the rows of the model's result: sg_matches,
+   ops 7, 8.  In general the observation is the model's value (status 2 and no rows exactly when the model
+   panics, else status 0 and the rows NodeMap / Out / EdgeMap are the rows of the model's result: sg_matches,
    sg_row).  SubgraphKeep on a well-formed request (no negative number; keep_wf) and SubgraphRemove on
    EVERY request satisfy the specification: Keep returns the requested subgraph (keep_spec_concl = the
    conclusion of C18_subgraph_keep_spec), Remove returns the surviving nodes and edges in ascending order
@@ -364,8 +366,8 @@ Print Assumptions C18_check_meaning_traversals.
    ops 9, 10.  DotString: status 0, the observed bytes are dot_string of the argument AND the proved reader
    applied to the OBSERVED bytes restores the argument.  Sprint: either status 0 and the observed text is
    "digraph " ++ quoted name ++ " {\n" ++ body ++ "}\n" with body the rendering of dot_stmts (every node and
-   every edge named once, in order), or status 2 and some statement carries an attribute whose value has an
-   unsupported type. *)
+   every edge named once, in order), or status 2, no output bytes, and some statement carries an attribute whose
+   value has an unsupported type. *)
 Theorem C18_check_meaning_graphops : forall rest,
   (bigraph_case_ok rest <-> exists g insN,
      rest = enc_graph g ++ 0 :: enc_Zss (map ZsN insN) ++ enc_graph g ++ 1 :: 1 :: enc_graph g /\
@@ -379,7 +381,7 @@ Theorem C18_check_meaning_graphops : forall rest,
   (simplify_case_ok rest <-> exists g weighted ws rg rws wg obs,
      rest = enc_graph g ++ weighted :: enc_Zss ws ++ 0 :: enc_graph rg ++ enc_Zss rws ++ 1 :: enc_graph g /\
      g_wf g /\
-     (if weighted =? 0 then wg = unit_weights g
+     (if weighted =? 0 then wg = unit_weights g /\ ws = []
       else Forall2 (fun tw a => wadj_decodes (fst tw) (snd tw) a) (combine g ws) wg /\ length ws = length g) /\
      map (map fst) wg = g /\
      Forall2 (fun tw a => wadj_decodes (fst tw) (snd tw) a) (combine rg rws) obs /\ length rws = length rg /\
@@ -423,7 +425,7 @@ Theorem C18_check_meaning_graphops : forall rest,
      ((status = 0 /\ (forall s a, In s stmts -> In a (stmt_attrs s) -> snd a <> AOther) /\
        exists body, render_all stmts = Some body /\
          obs = ZsN ([100; 105; 103; 114; 97; 112; 104; 32] ++ dot_string (d_name d) ++ [32; 123; 10] ++ body ++ [125; 10])%N)
-      \/ (status = 2 /\ exists s a, In s stmts /\ In a (stmt_attrs s) /\ snd a = AOther))).
+      \/ (status = 2 /\ obs = [] /\ exists s a, In s stmts /\ In a (stmt_attrs s) /\ snd a = AOther))).
 Proof. exact case_meaning_graphops. Qed.
 Print Assumptions C18_check_meaning_graphops.
 
